@@ -66,10 +66,19 @@ def check_build(cx: Cx):
         # ---- result = [dict(t) for t in product(*L)], written as a comprehension or as a loop with appends
         good = False
         lf = list_facts(paths, p, v, lambda s: strip_versions(s) == strip_versions(pe.data.get('result')), table) if isinstance(v, Fresh) else None
+        NAMES = None        # the parallel-lists form: dict(zip(names, combination)) over product(*value_axes)
         if lf is not None and lf.ok and lf.key is None and lf.base_var is not None and lf.cond == FTrue and lf.stages == 1:
             elt = lf.elem
             if isinstance(elt, Fresh) and elt.kind == 'call:dict' and elt.items == (lf.base_var,):
                 good = True
+            elif isinstance(elt, Fresh) and elt.kind == 'call:dict' and len(elt.items) == 1:
+                z = strip_versions(elt.items[0])
+                zargs = z.args[1:] if isinstance(z, App) and z.fn == 'call' and z.args[:1] == (Sym('builtins.zip'),) else \
+                    (z.args if isinstance(z, App) and z.fn == 'zip' else ())
+                if len(zargs) == 2 and strip_versions(zargs[1]) == lf.base_var and isinstance(strip_versions(zargs[0]), Fresh) and \
+                        strip_versions(zargs[0]).kind in ('list', 'call:list') and not getattr(z, 'kw', ()):
+                    NAMES = strip_versions(zargs[0])
+                    good = True
         if not good:
             viol('R-FRESH', 'one-fresh-dict-per-combination', f"build() returns {v!r}; it must be [dict(t) for t in product(*lists)] - "
                  f"one independent dictionary per combination, every combination once", where)
@@ -82,6 +91,10 @@ def check_build(cx: Cx):
             if not (isinstance(d, CompInfo) and len(d.gens) == 1 and not d.gens[0][2] and order_class(d.gens[0][1], params) == 'inorder'):
                 viol('R-ITER', 'one-pass-over-the-declaration', f"build() must make one unfiltered pass over _parameters in declaration "
                      f"order (found {L!r})", where)
+                continue
+            if NAMES is not None:
+                viol('R-ITER', 'names-and-axes-stay-aligned', "build() zips a list of names with each combination of a comprehension-built "
+                     "list of axes: alignment of the two is not established", where)
                 continue
             tgt, src, _ = d.gens[0]
             if isinstance(tgt, TupleT) and len(tgt.items) == 2:
@@ -105,6 +118,17 @@ def check_build(cx: Cx):
                 viol('R-ITER', 'every-parameter-visited', "build() leaves the loop over the parameters early", cx.where(build, lp.line))
                 continue
             iters = [e for e in p.events if e.kind == 'iter' and e.node is lp.node]
+            if NAMES is not None:
+                # names and value axes are appended in the same iteration, the name being that iteration's key: the two lists stay aligned
+                napps = [e for e in p.events if e.kind == 'store' and strip_versions(e.data.get('target')) == NAMES]
+                keys_ = [it_.data['info'].get('index') if it_.data['info'].get('kind') == 'items' else it_.data['info'].get('var') for it_ in iters]
+                aligned = len(napps) == len(iters) and all(e.data.get('store') == 'append' and e.loops and e.loops[0] == lp.node.lineno
+                                                             for e in napps) and [e.data.get('args', (None,))[0] for e in napps] == keys_
+                if not aligned:
+                    viol('R-ITER', 'names-and-axes-stay-aligned', f"build() zips a list of names with each combination, but the names are not "
+                         f"appended once per parameter, in the same iteration as that parameter's values "
+                         f"({[(e.data.get('store'), repr(e.data.get('args'))) for e in napps]})", cx.where(build, lp.line))
+                    continue
             apps = [e for e in p.events if e.kind == 'store' and strip_versions(e.data.get('target')) == L]
             if any(e.data.get('store') != 'append' for e in apps) or len(apps) != len(iters):
                 viol('R-ITER', 'one-tail-append-per-parameter', f"build(): {len(apps)} writes to the list of lists in {len(iters)} iteration(s) "
@@ -140,7 +164,8 @@ def check_build(cx: Cx):
                              f"the try block in {helper.name}() contains more than the iteration of the value: an unrelated TypeError "
                              f"would silently turn a collection into a single value", cx.where(helper, n.lineno))
             else:
-                _check_entry(cx, viol, kinds, key, value, entry, q, paths, table, lp.node.lineno if L.kind != 'listcomp' else None, awhere)
+                _check_entry(cx, viol, kinds, key, value, entry, q, paths, table, lp.node.lineno if L.kind != 'listcomp' else None, awhere,
+                             pairs=NAMES is None)
     if not reported:
         if kinds >= {'str', 'collection', 'scalar'}:
             cx.ok('R-GUARD', 'build(): product(*one list of (key, value) pairs per parameter, declaration order), dict per tuple; '
@@ -161,13 +186,15 @@ def check_build(cx: Cx):
 
 
 
-def _check_entry(cx, viol, kinds, key, value, entry, p, paths, table, loop_line, awhere):
+def _check_entry(cx, viol, kinds, key, value, entry, p, paths, table, loop_line, awhere, pairs=True):
     """One parameter's entry in the list of lists, on path p: [(key, value)] when the value is a str or not iterable (the
     TypeError fallback), [(key, v) for v in value] otherwise."""
     is_str_atoms = [AEq(App('type', (value,)), Sym('str')), AIsInst(value, Sym('str'))]
     str_branch = any(implies(p.cond, a) is None for a in is_str_atoms)
     not_str = any(implies(p.cond, f_not(a)) is None for a in is_str_atoms)
-    single = (TupleT((key, value)),)
+    def mk(k_, v_):
+        return TupleT((k_, v_)) if pairs else v_       # parallel-lists form: the axis holds the bare values
+    single = (mk(key, value),)
     handler = [e for e in p.events if e.kind == 'except' and (loop_line is None or (e.loops and e.loops[0] == loop_line))]
     if isinstance(entry, Fresh) and entry.kind == 'list' and entry.items:
         if entry.items != single:
@@ -188,7 +215,7 @@ def _check_entry(cx, viol, kinds, key, value, entry, p, paths, table, loop_line,
     elif isinstance(entry, Fresh) and entry.kind in ('listcomp', 'list', 'call:list'):
         ef = list_facts(paths, p, entry, lambda s: strip_versions(s) == value, table)
         if not (ef.ok and ef.key is None and ef.base_var is not None and ef.cond == FTrue and ef.stages == 1 and
-                ef.elem == TupleT((key, ef.base_var))):
+                ef.elem == mk(key, ef.base_var)):
             viol('R-GUARD', 'collection-entry-is-key-v-for-v-in-value',
                  f"a collection-valued parameter is expanded as {entry!r} ({ef.err or ef.elem!r}); expected (key, v) for "
                  f"v in the parameter's own value, unfiltered", awhere)
